@@ -21,6 +21,12 @@ VT2N = 2
 
 # {{{ generator
 
+LONG_P = "<p>accumulated_estimate_of_the_local_truncation_error_of_the_embedded_pair"
+LONG_LOCALS = ["a_rather_long_name_for_a_temporary_variable_of_the_method_0123456789",
+               "a_rather_long_name_for_a_temporary_variable_of_the_method_0123456789_b",
+               "the_scaled_difference_between_the_two_solutions_of_the_embedded_pair_x"]
+
+
 class FGen:
     """Scripts for the Fortran subset.  Variable kinds are static:
     nums (real scalars), ints (integer-valued reals used as bounds/subscripts),
@@ -36,6 +42,7 @@ class FGen:
         self.neq = neq
         self.max_ops = max_ops
         self.cnt = itertools.count()
+        self.long_persistent = rng.random() < 0.3
         self.stages = memory_bias and rng.random() < 0.5      # every phase opens with a Runge-Kutta stage pattern
         self.stage_tt = rng.choice([["var", "<t>"], ["+", ["var", "<t>"], ["var", "<dt>"]]])
         # open finding: <builtin>elementwise_abs of an ARRAY returns a 1-based array in Fortran (pinned by
@@ -358,7 +365,7 @@ class FGen:
                 rhs = self.num_expr(sc, rng.choice([1, 2, 2, 3]))
                 lhs = rng.choice(persist["nums"]) if rng.random() < 0.4 else rng.choice(
                     ["x", "y1", "z", "w", "tmp", "q", "X", "Y1", "tmp_0", "local_x", "lploc_x", "ifthenelse_result",
-                     "a_rather_long_name_for_a_temporary_variable_of_the_method_0123456789"])
+                     ] + LONG_LOCALS)
                 if lhs in sc["bools"] or lhs in sc["arrs"] or lhs in sc["uts"]:
                     continue
                 ops.append(["assign", lhs, None, rhs, [], self.s(rhs)])
@@ -541,6 +548,15 @@ class FGen:
                     else:
                         e = self.num_expr(sc, 3)
                     body.append(["assign", f"<p>g{pi}_{k}", None, e, [], self.s(e)])
+            if self.two_types and rng.random() < 0.5:
+                # the same dimension-dependent built-ins applied to BOTH user types (different lengths)
+                for comp, nm in (("<state>y", "y"), ("<state>w", "w")):
+                    fn = "<builtin>norm_2"      # (norm_1 / norm_inf have no Fortran code generator)
+                    body.append(["assign", f"<p>n{pi}_{nm}", None,
+                                 ["+", ["call", fn, [["var", comp]], {}],
+                                  ["call", "<builtin>len", [["var", comp]], {}]], [], 0])
+            if self.long_persistent and pi == 0:
+                body.append(["assign", LONG_P, None, ["+", ["var", "<state>s"], ["num", 1]], [], 0])
             # kinds of persistent state must be inferable: whole-variable assignments
             body.append(["assign", "<state>s", None, ["+", ["var", "<state>s"], ["var", "<dt>"]], [], 0])
             k = self.fresh("kk") if rng.random() < 0.5 else rng.choice(["k1", "k2", "u"])
